@@ -537,6 +537,62 @@ def subd_lines(r, n):
     return [r.choice([gen_single_d, gen_pair_d])(r) for _ in range(n)]
 
 
+def expected_subd(ln):
+    """closed form of a `gp subd` request (C07_value_exact_device): the reply the font's values and device deltas demand"""
+    t = ln.split()
+    bar = t.index("|")
+    m, d, idx = t[10:bar], t[7], int(t[8])
+    ps = [parse_pos(x) for x in t[bar + 1:]]
+    if m[-1] == "0":
+        return f"ok 0 {idx} 0 {fmt_pos(ps)}"
+    horiz = d in "lr"
+
+    def apply(k, vt, ux, uy):
+        v = [int(x) for x in vt[:4]]
+        dv = [0 if x == "-" else int(x) for x in vt[4:]]
+        ps[k][2] += v[0] + (dv[0] if ux else 0)
+        ps[k][3] += v[1] + (dv[1] if uy else 0)
+        if horiz: ps[k][0] += v[2] + (dv[2] if ux else 0)
+        else: ps[k][1] -= v[3] + (dv[3] if uy else 0)
+    empty = lambda vt: all(x in ("0", "-") for x in vt[:4]) and all(x == "-" for x in vt[4:])
+    if m[0] == "singled":
+        apply(idx, m[3:11], m[1] == "1", m[2] == "1")
+        nxt = idx + 1
+    else:
+        j, ux, uy = int(m[1]), m[2] == "1", m[3] == "1"
+        v1, v2 = m[4:12], m[12:20]
+        if not empty(v1): apply(idx, v1, ux, uy)
+        if not empty(v2): apply(j, v2, ux, uy)
+        nxt = j if empty(v2) else j + 1
+    return f"ok 1 {nxt} 0 {fmt_pos(ps)}"
+
+
+def device_value_search(ctx, shim, r, n):
+    """adjustments equal the font's values, device tables included: SinglePos / PairPos subtables with every value-format bit
+    through the crate's own Apply impls on a face with ppem; the expected positions are computed here in closed form from the
+    records and from the deltas the Device tables hold for that ppem"""
+    lines = subd_lines(r, n)
+    outs = vlib.run_lines(shim, lines)
+    live = bad = 0
+    for ln, o in zip(lines, outs):
+        e = expected_subd(ln)
+        if "live" in "".join(classify_subd(ln, o)): live += 1
+        if o != e:
+            bad += 1
+            if bad <= 2:
+                a, b = o.split(), e.split()
+                k = next((i for i in range(min(len(a), len(b))) if a[i] != b[i]), 0)
+                ctx.violation(f"value record with device tables (ppem {ln.split()[2]}/{ln.split()[3]}, direction {ln.split()[7]}): the crate "
+                              f"yields {' '.join(a[k:k + 2])} where the record's values and device deltas give {' '.join(b[k:k + 2])} "
+                              f"(reply token {k}; xa:ya:xo:yo:chain:type)",
+                              {"stage": "search", "stream": "device-values", "request": ln, "expected": e, "observed": o})
+    ctx.note_search("device-values", len(lines), live,
+                    rule="SinglePos 1/2 and PairPos 1/2 subtables with random value formats over all eight bits and hinting Device / "
+                         "VariationIndex tables, applied by the crate on a face with (ppem_x, ppem_y) at live sizes / elsewhere / 0, "
+                         "4 directions; expected = placements + their device deltas, advance + its device delta on the run's axis "
+                         "only, computed from the recipe; non-trivial = a device with a non-zero delta at this ppem is in the record")
+
+
 def classify_subd(ln, out):
     t = ln.split()
     bar = t.index("|")
@@ -1790,7 +1846,7 @@ def run(ctx):
                    classify=classify_prop, canon=canon)
     ctx.correspond("gpos-apply", lines=sub_lines(ctx.rng("sub"), ctx.budget(6000, 600000)),
                    classify=classify_sub, canon=canon)
-    ctx.correspond("gpos-apply-device", lines=subd_lines(ctx.rng("subd"), ctx.budget(4000, 300000)),
+    ctx.correspond("gpos-apply-device", lines=subd_lines(ctx.rng("subd"), ctx.budget(4000, 150000)),
                    classify=classify_subd, canon=canon)
     ctx.correspond("kern-machine", lines=mk_lines(ctx.rng("mk"), ctx.budget(4000, 400000)),
                    classify=classify_mk, canon=canon)
@@ -1799,15 +1855,16 @@ def run(ctx):
                    classify=classify_drv, canon=canon)
     kplans = kerx_plan_table(shim)
     ctx.cov["kerx_plan"] = {f"{d}/{f}": v for (d, f), v in kplans.items()}
-    ctx.correspond("kerx-driver", lines=kerx_drv_lines(ctx.rng("kxdrv"), ctx.budget(3000, 300000), kplans),
+    ctx.correspond("kerx-driver", lines=kerx_drv_lines(ctx.rng("kxdrv"), ctx.budget(3000, 150000), kplans),
                    classify=classify_kxdrv, canon=canon)
     ctx.correspond("gpos-lookup", groups=pos_groups(shim, ctx.rng("pos"), ctx.budget(150, 6000), ctx.budget(12, 16)),
                    classify=classify_pos, canon=canon, only=lambda ln: ln.startswith("gp pos"))
     corpus_seeds(ctx, shim)
     d3_hook_seed(ctx, shim, plans)
     kerx_hook_seed(ctx, shim, kplans)
+    device_value_search(ctx, shim, ctx.rng("devval"), ctx.budget(3000, 200000))
     kerx_value_search(ctx, shim, ctx.rng("kxval"), ctx.budget(300, 20000))
-    kernx_search(ctx, shim, ctx.rng("kernx"), ctx.budget(250, 15000), ctx.budget(10, 12))
+    kernx_search(ctx, shim, ctx.rng("kernx"), ctx.budget(250, 8000), ctx.budget(10, 12))
     mark_chain_search(ctx, shim, ctx.rng("markchain"), ctx.budget(3000, 200000))
     attach_search(ctx, shim, ctx.rng("attach"), ctx.budget(150, 10000), ctx.budget(8, 12))
     target_search(ctx, shim, ctx.rng("target"), ctx.budget(240, 12000), ctx.budget(10, 12))
@@ -1858,7 +1915,7 @@ def replay(ctx, rp):
         res = check_kernx(sem, rp["text"], rp["dir"], feat, o[2], o[3])
         print("font :", o[2]); print("plain:", o[3]); print("oracle:", res[1] if res else "difference equals the tables' kerning")
         return 1 if res else 0
-    if stream in ("kerx-values", "kerx-bracket-witness"):
+    if stream in ("kerx-values", "kerx-bracket-witness", "device-values"):
         o = vlib.run_lines(shim, [rp["request"]], nproc=1)[0]
         print("impl    :", o); print("expected:", rp["expected"])
         return 0 if o == rp["expected"] else 1
